@@ -49,6 +49,7 @@ func run(r *evid.Run) {
 	r.Assume("an empty message or empty rule ID is degenerate ('should never happen' in the printers): placeholders such as FAILURE are accepted")
 	r.Assume("`buf format` on a file with a syntax error prints `Failure: <file>:<line>:<col>: syntax error` and exits 1 whatever --error-format says; the property's list of status-100 situations does not include it, so only 'non-zero' is demanded there")
 	r.Assume("the github-actions reference parser is the runner's documented algorithm (first '::' ends the properties, split at ',', unescape %25 %0D %0A and, for properties, %3A %2C)")
+	r.Assume("every CLI run passes --timeout 0: buf's default 2m timeout would make the exit status depend on machine load; a run that is still cut by a deadline is not judged (incomplete, never a violation)")
 	r.Assume("texts are valid UTF-8; control characters other than CR/LF and invalid UTF-8 (which JSON and XML cannot carry losslessly) are out of the enumerated alphabet")
 
 	ctx := context.Background()
@@ -96,6 +97,7 @@ func run(r *evid.Run) {
 	r.Set("A3_tuples_with_several_junit_suites", dst.multiSuite.Load())
 	r.Set("F7_file_property_cases", dst.f7File.Load())
 	r.Set("F7_message_cases", dst.f7Msg.Load())
+	r.Set("F7_cases_where_a_correctly_escaped_rendering_passes_the_same_oracle", dst.f7SelfChecked.Load())
 	for i, f := range formats {
 		if only != "" {
 			break
@@ -146,6 +148,7 @@ func run(r *evid.Run) {
 	r.Set("B_config_ignore_yaml_compile_errors", cst.configIgnoreYAMLCompile.Load())
 	r.Set("B_line_grammar_skipped", cst.lineGrammarSkipped.Load())
 	r.Set("B_F7_runs", cst.f7.Load())
+	r.Set("B_runs_cut_by_a_deadline_not_judged", cst.timedOut.Load())
 	cst.mu.Lock()
 	keys := make([]string, 0, len(cst.perCmdFormat))
 	for k := range cst.perCmdFormat {
